@@ -20,13 +20,15 @@ TRANSLATORS = ["semiring", "rules"]
 LEVEL_TEXT = ("Machine-checked theorems (coq/props/C10.v) about the Coq model of matrix.py/relation.py: homogenisation preserves the meaning of both "
               "operands over arbitrary, differently ordered, overlapping variable lists; sum is pointwise at EVERY choice; composition has an exact formula "
               "at every choice and is the plain matrix product wherever the operands are free of infinity; fixpoint, when it returns, is the least solution "
-              "of X = 1 + X.R (reflexive-transitive closure) at every infinity-free choice; unbounded in the number of variables, their order and overlap. "
+              "of X = 1 + X.R (reflexive-transitive closure) at every infinity-free choice, and it terminates; splitting a statement list and composing the "
+              "parts gives the analysis of the whole; the empty relation is the identity (not zero) for sum and composition; unbounded in the number of "
+              "variables, their order and overlap. "
               "Tied to the code by structural comparison of random relation expressions; real results brute-forced against scalar matrix algebra.")
 LEVEL_NOTE = ("Trusted: Coq kernel, translators rules/semiring, harness. Open finding: an infinity of an operand can be lost by composition "
               "(zero polynomial x partially failing entry) -- the persistence clause is refuted with a witness, see known_findings.json.")
 TECHNIQUE = "Coq proof (homogenisation / sum / product / closure semantics) + differential correspondence on relation expressions + brute-force scalar algebra oracle"
 EXPLANATION = "see LEVEL_TEXT"
-ASSUMPTIONS = ["relations are well formed (distinct non-empty variable names, square matrix)", "fixpoint termination is not proved: theorems are about returned results"]
+ASSUMPTIONS = ["relations are well formed (distinct non-empty variable names, square matrix)"]
 
 HEADER = ("From Coq Require Import String List Bool Arith.\nFrom PM Require Import Semiring Poly Rel.\nImport ListNotations.\n"
           "Open Scope string_scope.\nOpen Scope list_scope.\n"
